@@ -70,7 +70,7 @@ func runC12(c *core.RunCtx) {
 		return
 	}
 	k := c.Plan.C("shards", 2)
-	tag := NewTag()
+	tag := NewTag(c)
 	ra := &run{c: c, n: n, db: "a" + tag, shards: 1}
 	rk := &run{c: c, n: n, db: "k" + tag, shards: k}
 	for _, r := range []*run{ra, rk} {
